@@ -22,24 +22,45 @@ type Mutant struct {
 		Old  string `json:"old"`
 		New  string `json:"new"`
 	} `json:"edits,omitempty"`
+	Patch  string `json:"patch,omitempty"` // unified diff (path relative to the mutant file or absolute) applied in memory
 	Expect string `json:"expect"` // "catch" | "silent"
 	Rule   string `json:"rule,omitempty"` // rule expected to report (prefix match), for catch
 	Why    string `json:"why,omitempty"`
 }
 
 func loadMutants(verifDir, prop string) ([]string, error) {
+	var out []string
 	dir := filepath.Join(verifDir, "mutants", prop)
 	ents, err := os.ReadDir(dir)
-	if err != nil {
-		if os.IsNotExist(err) {
-			return nil, nil
-		}
+	if err != nil && !os.IsNotExist(err) {
 		return nil, err
 	}
-	var out []string
 	for _, e := range ents {
 		if strings.HasSuffix(e.Name(), ".json") {
 			out = append(out, filepath.Join(dir, e.Name()))
+		}
+	}
+	// seeded changes confirmed in a scratch worktree (/verif/seeded/<id>/{patch.diff,meta.json}): those that the
+	// checks of this property are recorded to catch are replayed as in-memory overlays
+	sdir := filepath.Join(verifDir, "seeded")
+	sents, _ := os.ReadDir(sdir)
+	for _, e := range sents {
+		mf := filepath.Join(sdir, e.Name(), "meta.json")
+		data, err := os.ReadFile(mf)
+		if err != nil {
+			continue
+		}
+		var meta struct {
+			CaughtBy []string `json:"caught_by"`
+		}
+		if json.Unmarshal(data, &meta) != nil {
+			continue
+		}
+		for _, r := range meta.CaughtBy {
+			if strings.HasPrefix(r, prop+".") {
+				out = append(out, mf)
+				break
+			}
 		}
 	}
 	sort.Strings(out)
@@ -141,6 +162,21 @@ func runOneMutant(repo, verifDir, prop, file string) int {
 		fmt.Printf("mutant %s: %v\n", file, err)
 		return 1
 	}
+	if filepath.Base(file) == "meta.json" {
+		// a seeded change: replay its patch, expect one of the recorded rules of this property
+		var meta struct {
+			Seed     string   `json:"seed"`
+			CaughtBy []string `json:"caught_by"`
+		}
+		_ = json.Unmarshal(data, &meta)
+		m = Mutant{Name: "seeded/" + meta.Seed, Patch: "patch.diff", Expect: "catch"}
+		for _, r := range meta.CaughtBy {
+			if strings.HasPrefix(r, prop+".") {
+				m.Rule = r
+				break
+			}
+		}
+	}
 	pr, ok := registry[prop]
 	if !ok {
 		fmt.Printf("mutant: unknown property %s\n", prop)
@@ -155,6 +191,18 @@ func runOneMutant(repo, verifDir, prop, file string) int {
 		edits = append(edits, edit{e.File, e.Old, e.New})
 	}
 	overlay := map[string][]byte{}
+	if m.Patch != "" {
+		pp := m.Patch
+		if !filepath.IsAbs(pp) {
+			pp = filepath.Join(filepath.Dir(file), pp)
+		}
+		ov, err := overlayFromPatch(repo, pp)
+		if err != nil {
+			fmt.Printf("skipped: %v\n", err)
+			return 3
+		}
+		overlay = ov
+	}
 	for _, e := range edits {
 		abs := filepath.Join(repo, e.File)
 		src, ok := overlay[abs]
@@ -224,4 +272,58 @@ func runOneMutant(repo, verifDir, prop, file string) int {
 	}
 	fmt.Printf("mutant %s: bad expect %q\n", m.Name, m.Expect)
 	return 1
+}
+
+// overlayFromPatch applies a unified diff to copies of the touched files in a scratch directory
+// (outside /repo) and returns the patched contents keyed by their path in the repo.
+func overlayFromPatch(repo, patch string) (map[string][]byte, error) {
+	data, err := os.ReadFile(patch)
+	if err != nil {
+		return nil, err
+	}
+	var files []string
+	for _, l := range strings.Split(string(data), "\n") {
+		if strings.HasPrefix(l, "+++ b/") {
+			files = append(files, strings.TrimSpace(strings.TrimPrefix(l, "+++ b/")))
+		}
+	}
+	if len(files) == 0 {
+		return nil, fmt.Errorf("no files in patch %s", patch)
+	}
+	tmp, err := os.MkdirTemp("", "verifpatch")
+	if err != nil {
+		return nil, err
+	}
+	defer os.RemoveAll(tmp)
+	for _, f := range files {
+		dst := filepath.Join(tmp, f)
+		if err := os.MkdirAll(filepath.Dir(dst), 0o755); err != nil {
+			return nil, err
+		}
+		src, err := os.ReadFile(filepath.Join(repo, f))
+		if err == nil {
+			if err := os.WriteFile(dst, src, 0o644); err != nil {
+				return nil, err
+			}
+		}
+	}
+	cmd := exec.Command("git", "apply", "--unsafe-paths", "--directory="+tmp, patch)
+	cmd.Dir = tmp
+	cmd.Env = append(os.Environ(), "GIT_CEILING_DIRECTORIES=/", "GIT_DIR=/nonexistent")
+	if out, err := cmd.CombinedOutput(); err != nil {
+		// fall back to patch(1)
+		cmd2 := exec.Command("patch", "-p1", "-s", "-d", tmp, "-i", patch)
+		if out2, err2 := cmd2.CombinedOutput(); err2 != nil {
+			return nil, fmt.Errorf("patch does not apply to the current tree: %s / %s", strings.TrimSpace(string(out)), strings.TrimSpace(string(out2)))
+		}
+	}
+	ov := map[string][]byte{}
+	for _, f := range files {
+		b, err := os.ReadFile(filepath.Join(tmp, f))
+		if err != nil {
+			return nil, err
+		}
+		ov[filepath.Join(repo, f)] = b
+	}
+	return ov, nil
 }
